@@ -99,6 +99,19 @@ CHECKS = {
              "strings (stated as hypothesis unambiguous_tmap), not a d42 defect.",
         technique="Coq proof (loop invariant + tree induction, Permutation) + vm_compute correspondence + direct oracle",
         design="6 C18"),
+    "C15": dict(
+        text="Theorems (Coq, all schemas, no bound): eq_sym and ne_is_negb and eq_value_is_validate unconditional; eq_refl "
+             "and rebuild_equal under no_nan_params (refuted witness for NaN: F10); eq_same_verdicts / "
+             "discriminated_unequal and eq_trans under the decidable marker_free hypothesis, with refuted witnesses "
+             "for the unrestricted statements (F19: a `...` marker compared with a sub-schema that validates it). The "
+             "model reproduces Schema.__eq__ + Props.__eq__ incl. the fallback through validate. Tie: ==, != both "
+             "directions and schema == value on the real code vs the model; oracle on /repo: reflexive, symmetric, "
+             "negation, rebuild, transitivity on triples, equal => same verdicts on probes, single-parameter variants "
+             "that some probe tells apart are unequal.",
+        note=COMMON_NOTE + "Partial: the property holds on the unchanged tree only outside F10 (NaN parameters) and F19 "
+             "(markers facing universal sub-schemas); both are open known findings classified by input shape.",
+        technique="Coq proof (double nested induction over schemas) + refutation witnesses by vm_compute + vm_compute correspondence + direct oracle",
+        design="6 C15"),
 }
 
 
